@@ -131,8 +131,10 @@ dither_init (SF_PRIVATE *psf, int mode)
 		switch (SF_CODEC (psf->sf.format))
 		{	case SF_FORMAT_DOUBLE :
 			case SF_FORMAT_FLOAT :
-					pdither->read_int = psf->read_int ;
-					psf->read_int = dither_read_int ;
+					if (psf->read_int != dither_read_int)
+					{	pdither->read_int = psf->read_int ;
+						psf->read_int = dither_read_int ;
+						} ;
 					break ;
 
 			case SF_FORMAT_PCM_32 :
@@ -140,8 +142,10 @@ dither_init (SF_PRIVATE *psf, int mode)
 			case SF_FORMAT_PCM_16 :
 			case SF_FORMAT_PCM_S8 :
 			case SF_FORMAT_PCM_U8 :
-					pdither->read_short = psf->read_short ;
-					psf->read_short = dither_read_short ;
+					if (psf->read_short != dither_read_short)
+					{	pdither->read_short = psf->read_short ;
+						psf->read_short = dither_read_short ;
+						} ;
 					break ;
 
 			default : break ;
@@ -158,8 +162,10 @@ dither_init (SF_PRIVATE *psf, int mode)
 		switch (SF_CODEC (psf->sf.format))
 		{	case SF_FORMAT_DOUBLE :
 			case SF_FORMAT_FLOAT :
-					pdither->write_int = psf->write_int ;
-					psf->write_int = dither_write_int ;
+					if (psf->write_int != dither_write_int)
+					{	pdither->write_int = psf->write_int ;
+						psf->write_int = dither_write_int ;
+						} ;
 					break ;
 
 			case SF_FORMAT_PCM_32 :
@@ -172,17 +178,31 @@ dither_init (SF_PRIVATE *psf, int mode)
 			default : break ;
 			} ;
 
-		pdither->write_short = psf->write_short ;
-		psf->write_short = dither_write_short ;
+		/*
+		** Only save a method that is not already one of the dither wrappers :
+		** the command may be repeated and the case above may already have
+		** installed dither_write_int. Saving a wrapper as the original makes
+		** the wrapper call itself.
+		*/
+		if (psf->write_short != dither_write_short)
+		{	pdither->write_short = psf->write_short ;
+			psf->write_short = dither_write_short ;
+			} ;
 
-		pdither->write_int = psf->write_int ;
-		psf->write_int = dither_write_int ;
+		if (psf->write_int != dither_write_int)
+		{	pdither->write_int = psf->write_int ;
+			psf->write_int = dither_write_int ;
+			} ;
 
-		pdither->write_float = psf->write_float ;
-		psf->write_float = dither_write_float ;
+		if (psf->write_float != dither_write_float)
+		{	pdither->write_float = psf->write_float ;
+			psf->write_float = dither_write_float ;
+			} ;
 
-		pdither->write_double = psf->write_double ;
-		psf->write_double = dither_write_double ;
+		if (psf->write_double != dither_write_double)
+		{	pdither->write_double = psf->write_double ;
+			psf->write_double = dither_write_double ;
+			} ;
 		} ;
 
 	return 0 ;
